@@ -24,6 +24,7 @@ type UnitResult struct {
 	Instrs     int
 	LoopsAnnot int
 	DeadReturns []int // return sites (in execution order) that are unreachable under the assumptions
+	DeadBack    []string // loop back edges that are unreachable under the assumptions (the loop body's obligations would be vacuous)
 }
 
 type Options struct {
@@ -224,6 +225,20 @@ func verifyUnit(w *World, u *Unit, opt Options) *UnitResult {
 			if r.Status == "unsat" {
 				dmu.Lock()
 				res.DeadReturns = append(res.DeadReturns, i+1)
+				dmu.Unlock()
+			}
+		}()
+	}
+	for i, br := range ex.backReach {
+		i, br := i, br
+		dwg.Add(1)
+		go func() {
+			defer dwg.Done()
+			q := ex.header() + ex.prefix(len(ex.items)) + "(assert " + br + ")\n"
+			r := solve(q, fmt.Sprintf("%s.back%d", sanitize(u.Name), i), 3000, false, false)
+			if r.Status == "unsat" {
+				dmu.Lock()
+				res.DeadBack = append(res.DeadBack, ex.backPos[i])
 				dmu.Unlock()
 			}
 		}()
